@@ -58,6 +58,10 @@ class FakeBus:
             self.on_send(msg)
 
     def send_periodic(self, msg, period, duration=None, store_task=True, **kw):
+        # a producer that starts a task while its previous one is still running has two of them for
+        # a moment ("at every moment at most one"): counted here, reported by the drivers
+        if any(t.running and t.msg.arbitration_id == msg.arbitration_id for t in self.tasks):
+            self.overlaps = getattr(self, "overlaps", 0) + 1
         return FakeTask(self, msg, period, self.modifiable_tasks)
 
     def shutdown(self):
